@@ -9,6 +9,9 @@ class DeclError(Exception):
     pass
 
 
+LAST_IMPL_GENERICS = []
+
+
 def strip_comments(src):
     out = []
     i = 0
@@ -205,6 +208,8 @@ def parse_impl_text(txt):
         head = " ".join(head.split())
         # remove leading generics
         rest = re.sub(r"^(unsafe\s+)?impl\s*", "", head)
+        global LAST_IMPL_GENERICS
+        LAST_IMPL_GENERICS = []
         if rest.startswith("<"):
             depth = 0
             for i, c in enumerate(rest):
@@ -213,6 +218,12 @@ def parse_impl_text(txt):
                 elif c == ">" and rest[i - 1] != "-":
                     depth -= 1
                     if depth == 0:
+                        gen = rest[1:i]
+                        for part in _split_top(gen):
+                            part = part.strip()
+                            if part.startswith("'") or part.startswith("const "):
+                                continue
+                            LAST_IMPL_GENERICS.append(re.match(r"[A-Za-z_][A-Za-z0-9_]*", part).group(0))
                         rest = rest[i + 1:].strip()
                         break
         rest = re.split(r"\bwhere\b", rest)[0].strip()
